@@ -379,11 +379,24 @@ func rewriteFile(p *packages.Package, f *ast.File, rel string, st *stats) bool {
 			s.Body.List = append(pre, s.Body.List...)
 			needSimrt = true
 			st.Ranges++
+		case *ast.ReturnStmt:
+			// a database transaction is a lock acquisition too (see the mutex case below)
+			if c.Index() >= 0 && len(s.Results) == 1 && isBoltTx(p, s.Results[0]) {
+				c.InsertBefore(&ast.ExprStmt{X: &ast.CallExpr{Fun: &ast.SelectorExpr{X: ast.NewIdent("zzsimrt"), Sel: ast.NewIdent("YieldTx")}}})
+				needSimrt = true
+				st.Yields++
+			}
 		case *ast.ExprStmt:
 			// a seeded yield point before every mutex acquisition (no preemption in the
 			// simulated runtime: without it a goroutine runs from one blocking point to the next)
 			call, ok := s.X.(*ast.CallExpr)
 			if !ok || c.Index() < 0 {
+				return true
+			}
+			if isBoltTx(p, call) {
+				c.InsertBefore(&ast.ExprStmt{X: &ast.CallExpr{Fun: &ast.SelectorExpr{X: ast.NewIdent("zzsimrt"), Sel: ast.NewIdent("YieldTx")}}})
+				needSimrt = true
+				st.Yields++
 				return true
 			}
 			sel, ok := call.Fun.(*ast.SelectorExpr)
@@ -401,6 +414,11 @@ func rewriteFile(p *packages.Package, f *ast.File, rel string, st *stats) bool {
 				}
 			}
 		case *ast.AssignStmt:
+			if c.Index() >= 0 && len(s.Rhs) == 1 && isBoltTx(p, s.Rhs[0]) {
+				c.InsertBefore(&ast.ExprStmt{X: &ast.CallExpr{Fun: &ast.SelectorExpr{X: ast.NewIdent("zzsimrt"), Sel: ast.NewIdent("YieldTx")}}})
+				needSimrt = true
+				st.Yields++
+			}
 			for _, lhs := range s.Lhs {
 				if touchIndex(p, lhs) {
 					needSimrt = true
@@ -449,4 +467,29 @@ func touchIndex(p *packages.Package, lhs ast.Expr) bool {
 	}
 	ix.Index = &ast.CallExpr{Fun: &ast.SelectorExpr{X: ast.NewIdent("zzsimrt"), Sel: ast.NewIdent("Touch")}, Args: []ast.Expr{ix.Index}}
 	return true
+}
+
+// isBoltTx: e is a call of (*bbolt.DB).Update / View / Batch / Begin.
+func isBoltTx(p *packages.Package, e ast.Expr) bool {
+	call, ok := e.(*ast.CallExpr)
+	if !ok {
+		return false
+	}
+	sel, ok := call.Fun.(*ast.SelectorExpr)
+	if !ok {
+		return false
+	}
+	so := p.TypesInfo.Selections[sel]
+	if so == nil {
+		return false
+	}
+	fn, ok := so.Obj().(*types.Func)
+	if !ok {
+		return false
+	}
+	switch fn.FullName() {
+	case "(*go.etcd.io/bbolt.DB).Update", "(*go.etcd.io/bbolt.DB).View", "(*go.etcd.io/bbolt.DB).Batch", "(*go.etcd.io/bbolt.DB).Begin":
+		return true
+	}
+	return false
 }
